@@ -156,6 +156,9 @@ structure Store where
   known : List String      -- user-visible names added to this store (built-ins are implicit)
 deriving Repr, DecidableEq
 
+/-- `UnitStore.is_defined(name)`: `name in self._known_units`. The set starts as `set(_CELLML_UNITS)` (units.py
+    `__init__`) and receives every name added through this store, so the built-ins ARE defined
+    (`UnitStore().is_defined('metre') == True`); tied to the source by `Cellml.Tie.PUnits.isDefined_tie`. -/
 def Store.isDefined (st : Store) (name : String) : Bool :=
   Cellml.Gen.cellmlUnits.contains name || st.known.contains name
 
@@ -166,21 +169,36 @@ inductive AddErr where
   | unsupported (what : String)
 deriving Repr, DecidableEq
 
-/-- `UnitStore.add_unit(name, _make_pint_unit_definition(name, elems))` -/
-def addUnit (reg : Registry) (st : Store) (name : String) (elems : List UnitElem) :
-    Except AddErr (Registry × Store) :=
-  match defMeaning st.id elems with
-  | .error .offset => .error (.valueError "offset")
-  | .error (.badNumber w) => .error (.badDefinition w)
-  | .error (.unsupported w) => .error (.unsupported w)
-  | .ok (k, c, mentionsDimless) =>
-    if Cellml.Gen.cellmlUnits.contains name then .error (.valueError "redefine CellML unit")
-    else if st.known.contains name then .error (.valueError "redefine unit")
-    else if Cellml.Gen.unsupportedUnits.contains name then .error (.valueError "unsupported unit")
-    else
+/-- the offset test of `Parser._make_pint_unit_definition` on one `<unit>` child -/
+def elemOffsetBad (e : UnitElem) : Bool :=
+  match e.offset with
+  | some o => offsetRejected o
+  | none => false
+
+/-- pint's `parse_expression` evaluates EVERY identifier of the (prefixed) expression, whatever exponent it ends up
+    with: each must be a registry key (`'((nosuch)**0)'` raises `UndefinedUnitError`) -/
+def refsKnown (reg : Registry) (storeId : Nat) (elems : List UnitElem) : Bool :=
+  elems.all (fun e => allKnown reg (nameContainer (mangle storeId e.units)))
+
+/-- `UnitStore.add_unit(name, expression)` (units.py 155-181) in the order of the source, given what pint makes of the
+    expression text: `refs` = every identifier in it is a registry key, `m` = its value.
+    1. the three tests on the NAME (`ValueError`), before anything is evaluated;
+    2. `parse_expression`: `UndefinedUnitError` for an unknown identifier;
+    3. the dimensionless / dimensional branch, `define`, `_known_units.add(name)`. -/
+def addUnitWith (refs : Bool) (m : Except DefErr (Scale × Container × Bool)) (reg : Registry) (st : Store)
+    (name : String) : Except AddErr (Registry × Store) :=
+  if Cellml.Gen.cellmlUnits.contains name then .error (.valueError "redefine CellML unit")
+  else if st.known.contains name then .error (.valueError "redefine unit")
+  else if Cellml.Gen.unsupportedUnits.contains name then .error (.valueError "unsupported unit")
+  else if !refs then .error .undefinedUnit
+  else
+    match m with
+    | .error .offset => .error (.valueError "offset")
+    | .error (.badNumber w) => .error (.badDefinition w)
+    | .error (.unsupported w) => .error (.unsupported w)
+    | .ok (k, c, mentionsDimless) =>
       let c' := PMap.norm c
-      if !allKnown reg c' then .error .undefinedUnit
-      else if c' = [] then
+      if c' = [] then
         .ok ((prefixName st.id name, .derived (PMap.norm k) []) :: reg, { st with known := name :: st.known })
       else if mentionsDimless then
         -- `qname = (dimensionless ...)*(metre ...)`: pint keeps the key `dimensionless` in the reference of
@@ -188,6 +206,13 @@ def addUnit (reg : Registry) (st : Store) (name : String) (elems : List UnitElem
         .error (.unsupported "dimensionless mixed with dimensional units")
       else
         .ok ((prefixName st.id name, .derived (PMap.norm k) c') :: reg, { st with known := name :: st.known })
+
+/-- `UnitStore.add_unit(name, _make_pint_unit_definition(name, elems))`: first the parser builds the text (its only
+    failure: an offset, `ValueError`), then `add_unit` runs on it -/
+def addUnit (reg : Registry) (st : Store) (name : String) (elems : List UnitElem) :
+    Except AddErr (Registry × Store) :=
+  if elems.any elemOffsetBad then .error (.valueError "offset")
+  else addUnitWith (refsKnown reg st.id elems) (defMeaning st.id elems) reg st name
 
 /-- `UnitStore.add_base_unit(name)` -/
 def addBaseUnit (reg : Registry) (st : Store) (name : String) : Except AddErr (Registry × Store) :=
